@@ -50,6 +50,10 @@ func ccOps() []ccOp {
 		{"mknod", "dir", "Mknod", "", func(f uint64, t string) *refcodec.Msg { return tMknod(f, "n"+t, memtree.TFifo|0o600) }},
 		{"unlinkat", "dir", "UnlinkAt", "", func(f uint64, t string) *refcodec.Msg { return tUnlinkat(f, "v"+t) }},
 		{"setattr", "any", "SetAttr", "", func(f uint64, t string) *refcodec.Msg { return tSetattr(f, 1, 0o700, 0) }},
+		// (the class of SetAttr does not depend on which attributes are set)
+		{"setattr-mtime", "any", "SetAttr", "", func(f uint64, t string) *refcodec.Msg { return tSetattr(f, 0x20, 0, 0) }},
+		{"setattr-times", "any", "SetAttr", "", func(f uint64, t string) *refcodec.Msg { return tSetattr(f, 0x1b0, 0, 0) }},
+		{"setattr-owner", "any", "SetAttr", "", func(f uint64, t string) *refcodec.Msg { return tSetattr(f, 6, 0, 0) }},
 		{"renameat", "dir", "RenameAt", "", func(f uint64, t string) *refcodec.Msg { return tRenameat(f, "r"+t, f, "q"+t) }},
 		{"rename", "any-nonroot", "RenameAt", "", func(f uint64, t string) *refcodec.Msg { return tRename(f, 28, "moved"+t) }},
 		{"remove", "any-nonroot", "UnlinkAt", "", func(f uint64, t string) *refcodec.Msg { return tRemove(f) }},
